@@ -1,10 +1,10 @@
 \* EXPECTED TO BE REJECTED: without the 'skip duplicate reactions' test a reaction with two species of one phase is listed twice
 SPECIFICATION Spec
 CONSTANTS
-  MaxPhases = 3
-  SpCounts <- Sp3
-  MaxRx = 2
-  MaxIa = 1
+  MaxPhases = 2
+  SpCounts <- Sp2
+  MaxRx = 1
+  MaxIa = 0
   MaxCalls = 3
   Variant = "nodedup"
   Scope = "narrow"
